@@ -202,10 +202,24 @@ def _sig_for(ev, mis, m, env):
     sig = "%s|%s|%s" % (k, field, cls)
     if k == "join" and bad is not None:
         na = len(m["atoms"])
-        parts = sorted({"self-part" if i < na else "other-part" for i in bad})
+        parts = sorted({"self-part" if (i if isinstance(i, int) else max(i)) < na else "other-part" for i in bad})
         sig += "|" + "+".join(parts)
     if k == "pdb" and field in ("serial", "bonds"):
         sig += "|%s|%s" % ("single-chain" if TM.n_chains(m) < 2 else "multi-chain", _ser_ctx(m))
+    if k == "pdb" and field == "bonds":
+        # which kind of bond went wrong (standard residue / HET group at its ends) and whether any atom needs more
+        # than one CONECT line
+        kinds = set()
+        for (i, j) in (bad or []):
+            if i < len(m["atoms"]) and j < len(m["atoms"]):
+                e = sorted("std" if m["atoms"][x][TM.RESNAME] in TM.PDB_STANDARD else "het" for x in (i, j))
+                kinds.add("-".join(e))
+        deg = {}
+        for (i, j, _t, _o) in m["bonds"]:
+            deg[i] = deg.get(i, 0) + 1
+            deg[j] = deg.get(j, 0) + 1
+        sig += "|%s|%s" % ("+".join(sorted(kinds)) or "none", "max-partners>4" if max(deg.values(), default=0) > 4
+                           else "max-partners<=4")
     return sig
 
 
@@ -403,6 +417,11 @@ def compare4(exp, got):
         if field in TM.FIELD_NAMES and len(exp["atoms"]) == len(got["atoms"]):
             f = TM.FIELD_NAMES.index(field)
             badi = [i for i, (e, g) in enumerate(zip(exp["atoms"], got["atoms"])) if not TM.same(e[f], g[f])]
+        if field == "bonds":
+            opt = exp.get("optional", ())
+            eb = {(b[0], b[1]) for b in exp["bonds"]} - set(opt)
+            gb = {(b[0], b[1]) for b in got["bonds"]} - set(opt)
+            badi = sorted(eb ^ gb)
         out.append((field, cls, detail, badi))
     return out
 
